@@ -31,6 +31,11 @@ CT = 'gaddlemaps/components/_components_top.py'
 
 # name: (property, file, old, new)
 MUTANTS = {
+ 'X03-add-shares-atoms': ('X03', RES, 'return Residue(self.atoms + other.atoms)', 'return Residue(self._atoms_gro + other.atoms)'),
+ 'X03-add-atom-not-copied': ('X03', RES, 'return Residue(self.atoms + [other.copy()])', 'return Residue(self.atoms + [other])'),
+ 'X03-copy-shares': ('X03', RES, '        return Residue(self.atoms)\n', '        return Residue(self._atoms_gro)\n'),
+ 'X03-resname-cut-4': ('X03', RES, 'new_resname = new_resname[:5]', 'new_resname = new_resname[:4]'),
+ 'X03-ids-length-unchecked': ('X03', RES, "if len(self) != len(new_ids):", "if len(self) > len(new_ids):"),
  'C09-judge-against-min': ('C09', BK, '_accept_metropolis(chi2, chi2_new)', '_accept_metropolis(chi2_min, chi2_new)'),
  'C09-newmin-on-tie': ('C09', BK, 'if chi2 < chi2_min:', 'if chi2 <= chi2_min:'),
  'C09-reset-on-every-accept': ('C09', BK, 'if chi2 < chi2_min:', 'if True:'),
